@@ -18,8 +18,9 @@
 //                                                           (update_slaac_state(t0) drops everything <= t0 and clears the flag;
 //                                                            afterwards process_advertisement(t0) stores t0 + lifetime with
 //                                                            lifetime > 0, or zeroes valid_until and sets the flag)
-// `slaac_poll_step` proves INV inductive over the three poll phases (labels `inv:`); the other
-// harnesses start from an arbitrary INV(t0) state.
+// `slaac_poll_step` proves INV inductive over the three poll phases, one phase per path (labels
+// `inv:`; maintenance runs at t0 >= the previous poll instant and establishes S5 for t0, the other two
+// phases preserve INV(t0)); the other harnesses start from an arbitrary INV(t0) state.
 #[allow(dead_code, unused_imports, unused_variables, unused_mut)]
 mod v_iface_slaac {
     use super::*;
@@ -62,8 +63,11 @@ mod v_iface_slaac {
         v
     }
 
-    /// arbitrary `Slaac` satisfying INV(t0) with the given `sync_required` flag
-    fn any_slaac(t0: i64, flag: bool) -> Slaac {
+    /// arbitrary `Slaac` satisfying INV(t0) with the given `sync_required` flag, holding `np` prefixes
+    /// (0..=IFACE_MAX_PREFIX_COUNT = 1) and `nr` routes (0..=IFACE_MAX_ROUTE_COUNT = 2).  The counts are
+    /// concrete on each path (see `shapes!`): loops over the stored entries then have constant trip
+    /// counts, while --default-unwind has to be >= 17 for the 16-byte address comparisons.
+    fn any_slaac(t0: i64, flag: bool, np: usize, nr: usize) -> Slaac {
         let mut s = Slaac::new();
         let ph: u8 = kani::any();
         let num: u8 = kani::any();
@@ -84,20 +88,34 @@ mod v_iface_slaac {
         }
         s.num_solicitations = num;
         s.sync_required = flag;
-        // S5: 0..=1 prefixes (IFACE_MAX_PREFIX_COUNT), 0..=2 routes (IFACE_MAX_ROUTE_COUNT), symbolic lifetimes
-        if kani::any() {
+        // S5: symbolic lifetimes
+        if np >= 1 {
             let valid = any_valid_until(t0, flag);
             let pref = any_us(0, T_MAX + LIFE_MAX);
             let _ = s.prefix.insert(Ipv6Cidr::new(any_prefix(), 64), PrefixInfo::new(us(pref), us(valid)));
         }
-        let nr: u8 = kani::any();
         if nr >= 1 {
             let _ = s.routes.push(Route { cidr: IPV6_DEFAULT, via_router: ROUTER_A, valid_until: us(any_valid_until(t0, flag)) });
         }
-        if nr >= 2 && IFACE_MAX_ROUTE_COUNT >= 2 {
+        if nr >= 2 {
             let _ = s.routes.push(Route { cidr: IPV6_DEFAULT, via_router: ROUTER_B, valid_until: us(any_valid_until(t0, flag)) });
         }
         s
+    }
+
+    /// run `$body(np, nr)` once per shape, the shape chosen by the solver
+    macro_rules! shapes {
+        ($body:ident) => {
+            let shape: u8 = kani::any();
+            match shape {
+                0 => $body(0, 0),
+                1 => $body(0, 1),
+                2 => $body(0, 2),
+                3 => $body(1, 0),
+                4 => $body(1, 1),
+                _ => $body(1, 2),
+            }
+        };
     }
 
     fn dump(tag: &str, s: &Slaac, t: i64) {
@@ -144,11 +162,9 @@ mod v_iface_slaac {
 
     // ------------------------------------------------------------------ poll_at vs rs_required / sync_required
     // State left by a poll at t0 that processed no router advertisement (flag clear, nothing expired yet).
-    // @harness props=C13 cfg=KI6 tier=q to=300 mem=4 unwind=18 opts=nomem covers=5 funcs=Slaac::poll_at;Slaac::rs_required;Slaac::sync_required bounds=every_INV_state:_phase_Start/Discovering/Maintaining,_0..=3_solicitations_left,_0..=1_prefixes_(crate_default_capacity),_0..=2_routes,_lifetimes_any_value_up_to_2^32_s;_poll_instant_<2^50_us;_probe_instant_anywhere_from_the_poll_instant_on
-    #[kani::proof]
-    pub(crate) fn slaac_poll_vs_rs() {
+    fn poll_vs_rs_body(np: usize, nr: usize) {
         let t0 = any_us(0, T_MAX);
-        let s = any_slaac(t0, false);
+        let s = any_slaac(t0, false, np, nr);
         dump("STATE", &s, t0);
         let d = s.poll_at(us(t0));
         crate::vdump!("poll_at({}) = {:?}; rs_required={} sync_required={}", t0, d, s.rs_required(us(t0)), s.sync_required(us(t0)));
@@ -156,7 +172,7 @@ mod v_iface_slaac {
         let t = any_us(t0, T_MAX + 2 * LIFE_MAX);
         // (witnesses first: a failing assertion cuts off the paths behind it)
         kani::cover!(s.phase == Phase::Discovering && before(t, d) && t > t0, "waiting for the solicitation interval");
-        kani::cover!(s.phase == Phase::Maintaining && d.is_some() && s.routes.len() == 2 && s.prefix.len() == 1, "maintaining: earliest of three lifetimes");
+        kani::cover!(s.phase == Phase::Maintaining && d.is_some() && nr == 2 && np == 1, "maintaining: earliest of three lifetimes");
         kani::cover!(s.phase == Phase::Maintaining && d.is_none(), "maintaining with nothing stored: no deadline");
         kani::cover!(s.phase == Phase::Discovering && s.num_solicitations == 0, "solicitations exhausted");
         kani::cover!(s.phase == Phase::Start && s.rs_required(us(t0)), "first solicitation due");
@@ -172,82 +188,110 @@ mod v_iface_slaac {
         }
     }
 
+    // @harness props=C13 cfg=KI6 tier=q to=300 mem=4 unwind=18 opts=nomem covers=5 funcs=Slaac::poll_at;Slaac::rs_required;Slaac::sync_required bounds=every_INV_state:_phase_Start/Discovering/Maintaining,_0..=3_solicitations_left,_0..=1_prefixes_(crate_default_capacity),_0..=2_routes,_lifetimes_any_value_up_to_2^32_s;_poll_instant_<2^50_us;_probe_instant_anywhere_from_the_poll_instant_on
+    #[kani::proof]
+    pub(crate) fn slaac_poll_vs_rs() {
+        shapes!(poll_vs_rs_body);
+    }
+
     // State left by a poll at t0 whose ingress processed a router advertisement after maintenance had
     // run (flag set): the new prefix/route still has to be copied to the interface by a later poll.
-    // @harness props=C13 cfg=KI6 tier=q to=300 mem=4 unwind=18 opts=nomem covers=2 funcs=Slaac::poll_at;Slaac::sync_required;Slaac::has_ra_update bounds=every_INV_state_with_the_sync_flag_set;_same_bounds_as_slaac_poll_vs_rs
-    #[kani::proof]
-    pub(crate) fn slaac_poll_after_ra() {
+    fn poll_after_ra_body(np: usize, nr: usize) {
         let t0 = any_us(0, T_MAX);
-        let s = any_slaac(t0, true);
-        // an advertisement has been processed: Discovering was left (process_advertisement), something was stored or zeroed
+        let s = any_slaac(t0, true, np, nr);
+        // an advertisement has been processed: Discovering was left (process_advertisement)
         kani::assume(s.phase != Phase::Discovering);
         dump("STATE", &s, t0);
         let d = s.poll_at(us(t0));
         crate::vdump!("poll_at({}) = {:?}; has_ra_update={}", t0, d, s.has_ra_update());
-        kani::cover!(s.phase == Phase::Maintaining && s.prefix.len() == 1 && d.is_some(), "new prefix waiting to be configured");
+        kani::cover!(s.phase == Phase::Maintaining && np == 1 && d.is_some(), "new prefix waiting to be configured");
         kani::cover!(s.phase == Phase::Start, "unsolicited advertisement before the first solicitation");
         assert!(s.sync_required(us(t0)), "prop:c13_slaac_ra_update_is_pending_work");
         // the pending synchronisation is scheduled: the deadline is not later than the poll that produced it
         assert!(!before(t0, d), "prop:c13_slaac_ra_update_scheduled_by_poll_at");
     }
 
-    // ------------------------------------------------------------------ INV is inductive over one poll; history base case
-    // @harness props=C13 cfg=KI6 tier=q to=600 mem=6 unwind=18 opts=nomem covers=4 funcs=Slaac::update_slaac_state;Slaac::process_advertisement;Slaac::rs_required;Slaac::rs_sent;Slaac::new bounds=one_poll_=_maintenance,_0..=2_router_advertisements_(2_routers,_2_prefixes,_any_lifetimes),_solicitation;_pre-state_any_INV_state_or_new()
+    // @harness props=C13 cfg=KI6 tier=q to=300 mem=4 unwind=18 opts=nomem covers=2 funcs=Slaac::poll_at;Slaac::sync_required;Slaac::has_ra_update bounds=every_INV_state_with_the_sync_flag_set;_same_bounds_as_slaac_poll_vs_rs
     #[kani::proof]
-    pub(crate) fn slaac_poll_step() {
+    pub(crate) fn slaac_poll_after_ra() {
+        shapes!(poll_after_ra_body);
+    }
+
+    // ------------------------------------------------------------------ INV is inductive over the three phases of a poll
+    fn any_prefix_info() -> Option<NdiscPrefixInformation> {
+        if kani::any() {
+            let fl: u8 = kani::any();
+            Some(NdiscPrefixInformation {
+                prefix_len: if kani::any() { 64 } else { 48 },
+                flags: NdiscPrefixInfoFlags::from_bits_truncate(fl),
+                valid_lifetime: Duration::from_micros(any_us(0, LIFE_MAX) as u64),
+                preferred_lifetime: Duration::from_micros(any_us(0, LIFE_MAX) as u64),
+                prefix: any_prefix(),
+            })
+        } else {
+            None
+        }
+    }
+
+    fn poll_step_body(np: usize, nr: usize) {
         let tp = any_us(0, T_MAX);
         let t0 = any_us(tp, T_MAX);
-        let fresh: bool = kani::any();
-        let mut s = if fresh { Slaac::new() } else { any_slaac(tp, kani::any()) };
-        if fresh {
-            assert_inv(&s, tp);
-        }
-        dump("PRE", &s, tp);
-        // maintenance
-        if s.sync_required(us(t0)) {
-            s.update_slaac_state(us(t0));
-        }
-        assert!(!s.sync_required(us(t0)), "inv:S5_maintenance_leaves_nothing_to_sync");
-        // ingress: the interface forwards advertisements only when SLAAC is enabled
-        let n_ra: u8 = kani::any();
-        let mut i = 0;
-        while i < 2 {
-            if i < n_ra {
+        let op: u8 = kani::any();
+        match op {
+            0 => {
+                // maintenance at t0, from the state an earlier poll (at tp <= t0) left behind, or from new()
+                let fresh: bool = kani::any();
+                let mut s = if fresh && np == 0 && nr == 0 { Slaac::new() } else { any_slaac(tp, kani::any(), np, nr) };
+                if fresh && np == 0 && nr == 0 {
+                    assert_inv(&s, tp);
+                }
+                dump("PRE maintenance", &s, tp);
+                let due = s.sync_required(us(t0));
+                if due {
+                    s.update_slaac_state(us(t0));
+                }
+                dump("POST", &s, t0);
+                kani::cover!(due && nr == 2 && s.routes.len() == 1, "one of two routers expired");
+                assert!(!s.sync_required(us(t0)), "inv:S5_maintenance_leaves_nothing_to_sync");
+                assert_inv(&s, t0);
+            }
+            1 => {
+                // ingress at t0 (after maintenance): the interface forwards advertisements only when SLAAC is enabled
+                let mut s = any_slaac(t0, kani::any(), np, nr);
+                dump("PRE advertisement", &s, t0);
                 let src = any_router();
                 let life = Duration::from_micros(any_us(0, LIFE_MAX) as u64);
-                let pi = if kani::any() {
-                    let v = any_us(0, LIFE_MAX) as u64;
-                    let p = any_us(0, LIFE_MAX) as u64;
-                    let fl: u8 = kani::any();
-                    Some(NdiscPrefixInformation {
-                        prefix_len: if kani::any() { 64 } else { 48 },
-                        flags: NdiscPrefixInfoFlags::from_bits_truncate(fl),
-                        valid_lifetime: Duration::from_micros(v),
-                        preferred_lifetime: Duration::from_micros(p),
-                        prefix: any_prefix(),
-                    })
-                } else {
-                    None
-                };
-                s.process_advertisement(&src, life, pi, us(t0));
+                let was = s.phase;
+                s.process_advertisement(&src, life, any_prefix_info(), us(t0));
+                dump("POST", &s, t0);
+                kani::cover!(nr == 1 && s.routes.len() == 2 && np == 0 && s.prefix.len() == 1 && was == Phase::Discovering, "second router and first prefix learnt");
+                kani::cover!(nr == 1 && s.sync_required && s.routes[0].valid_until == us(0) && life == Duration::ZERO, "advertisement with zero router lifetime");
+                assert_inv(&s, t0);
+                assert!(s.phase != Phase::Discovering, "prop:c13_slaac_advertisement_ends_discovery");
             }
-            i += 1;
+            _ => {
+                // egress at t0 on a device that accepts frames
+                let mut s = any_slaac(t0, kani::any(), np, nr);
+                dump("PRE solicitation", &s, t0);
+                let rs = s.rs_required(us(t0));
+                if rs {
+                    s.rs_sent(us(t0));
+                }
+                dump("POST", &s, t0);
+                kani::cover!(rs && s.num_solicitations == 0, "last solicitation sent");
+                assert_inv(&s, t0);
+                assert!(!s.rs_required(us(t0)), "prop:c13_slaac_one_solicitation_per_poll");
+                if rs {
+                    assert!(s.poll_at(us(t0)) == Some(us(t0 + RSI)), "prop:c13_slaac_next_solicitation_after_interval");
+                }
+            }
         }
-        // egress on a device that accepts frames
-        let rs = s.rs_required(us(t0));
-        if rs {
-            s.rs_sent(us(t0));
-        }
-        dump("POST", &s, t0);
-        assert_inv(&s, t0);
-        assert!(!s.rs_required(us(t0)), "prop:c13_slaac_one_solicitation_per_poll");
-        if rs {
-            assert!(s.poll_at(us(t0)) == Some(us(t0 + RSI)) || s.phase == Phase::Maintaining, "prop:c13_slaac_next_solicitation_after_interval");
-        }
-        kani::cover!(fresh && rs && n_ra == 0, "first solicitation of a new interface");
-        kani::cover!(!fresh && rs && s.num_solicitations == 0, "last solicitation sent");
-        kani::cover!(n_ra == 2 && s.routes.len() == 2 && s.prefix.len() == 1 && s.phase == Phase::Maintaining, "two routers and a prefix learnt");
-        kani::cover!(!fresh && n_ra == 1 && s.sync_required && s.routes.len() == 1 && s.routes[0].valid_until == us(0), "advertisement with zero router lifetime");
+    }
+
+    // @harness props=C13 cfg=KI6 tier=q to=600 mem=6 unwind=18 opts=nomem covers=4 funcs=Slaac::update_slaac_state;Slaac::process_advertisement;Slaac::rs_required;Slaac::rs_sent;Slaac::new bounds=one_phase_of_a_poll_(maintenance_|_one_router_advertisement_from_2_routers/2_prefixes_with_any_lifetimes_and_flags_|_solicitation)_from_any_INV_state_or_new();_0..=1_prefixes,_0..=2_routes
+    #[kani::proof]
+    pub(crate) fn slaac_poll_step() {
+        shapes!(poll_step_body);
     }
 
     // The exhausted-solicitation state is reached by the interface's own call sequence: new(), then
@@ -290,7 +334,7 @@ mod v_iface_slaac {
     #[kani::proof]
     pub(crate) fn slaac_must_fail() {
         let t0 = any_us(0, T_MAX);
-        let s = any_slaac(t0, false);
+        let s = any_slaac(t0, false, 0, 1);
         assert!(s.poll_at(us(t0)).is_none(), "prop:deliberately_false_slaac_never_has_a_deadline");
     }
 }
